@@ -78,3 +78,55 @@ theorem C13_cli_delim_spelling (d : List Char) :
   rw [if_neg h1, if_neg h2]
 
 end Rbql
+
+namespace Rbql
+
+/-! ### the front door of the command line -/
+
+/-- a query is run exactly when `--query` is given together with a delimiter (or the monocolumn policy, which needs none), unless
+`--version` or the `--color` / `--output` clash intervene -/
+theorem C13_cli_runs_iff (a : CliArgs) :
+    (∃ d p, cliDoor a = .run d p) ↔
+      (a.version = false ∧ (a.hasOutput && a.color) = false ∧ a.hasQuery = true ∧ (a.delim.isSome ∨ a.policy = some .monocolumn)) := by
+  rcases a with ⟨v, c, o, p, d, q⟩
+  cases v <;> cases c <;> cases o <;> cases q <;> cases d <;> cases p <;> simp [cliDoor] <;> (try rename_i x; cases x <;> simp)
+
+/-- every non-interactive invocation (`--query` given, no `--version`) either runs a query or is refused with an error: it never falls
+through silently -/
+theorem C13_cli_noninteractive_runs_or_refuses (a : CliArgs) (hq : a.hasQuery = true) (hv : a.version = false) :
+    (∃ d p, cliDoor a = .run d p) ∨ (∃ w, cliDoor a = .refuse w) := by
+  rcases a with ⟨v, c, o, p, d, q⟩
+  simp only at hq hv
+  subst hq hv
+  cases c <;> cases o <;> cases d <;> cases p <;> simp [cliDoor] <;> (try rename_i x; cases x <;> simp)
+
+/-- the dialect a run uses is the one `cliDialects` describes: the front door adds nothing to it but the monocolumn rule -/
+theorem C13_cli_run_dialect (a : CliArgs) (d : List Char) (p : CliPolicy) (h : cliDoor a = .run d p) (fmt : OutFormat)
+    (hm : a.policy ≠ some .monocolumn) :
+    ∃ darg, a.delim = some darg ∧ (cliDialects darg a.policy fmt).inDelim = d ∧ (cliDialects darg a.policy fmt).inPolicy = p := by
+  rcases a with ⟨v, c, o, pol, dl, q⟩
+  simp only at hm
+  have hd : ∀ x : Option (List Char), (if pol = some CliPolicy.monocolumn then some [] else x) = x := by intro x; simp [hm]
+  cases dl with
+  | none =>
+    cases v <;> cases c <;> cases o <;> cases q <;> cases pol <;> simp [cliDoor, hd] at h <;> simp_all [cliDoor]
+  | some darg =>
+    refine ⟨darg, rfl, ?_⟩
+    cases v <;> cases c <;> cases o <;> cases q <;> simp [cliDoor, hd] at h
+    all_goals (obtain ⟨h1, h2⟩ := h; subst h1 h2; cases fmt <;> simp [cliDialects, cliNamedFormat])
+
+/-- `--policy monocolumn` needs no delimiter and reads whole lines -/
+theorem C13_cli_monocolumn_needs_no_delim (a : CliArgs) (hp : a.policy = some .monocolumn) (hq : a.hasQuery = true) (hv : a.version = false)
+    (hc : (a.hasOutput && a.color) = false) : cliDoor a = .run [] .monocolumn := by
+  rcases a with ⟨v, c, o, p, d, q⟩
+  simp only at hp hq hv hc
+  subst hp hq hv
+  simp [cliDoor, hc, cliNormalizeDelim, cliDefaultPolicy]
+
+example : cliDoor { hasQuery := true, delim := some "TAB".toList } = .run ['\t'] .simple := by decide
+example : cliDoor { hasQuery := true, policy := some .quoted } = .refuse .policyWithoutDelim := by decide
+example : cliDoor { hasQuery := true } = .refuse .delimRequired := by decide
+example : cliDoor { hasQuery := true, delim := some [','], color := true, hasOutput := true } = .refuse .colorWithOutput := by decide
+example : cliDoor { color := true } = .refuse .colorInteractive := by decide
+
+end Rbql
